@@ -571,6 +571,11 @@ def analyze(plan, r):
             add(sorted(set(hang_props + ["C20"] + (["C05"] if fam == "shutdown" else []) + (["C06"] if fam == "killshutdown" else []))),
                 "manager-crash", f"manager-thread-crashed[{c}] ctx[{ctx}]", str(r.crashes[:2]))
             continue
+        if c.startswith("QueueFeederThread:") and not kills and not fatal_kinds and "shutdown-kill" not in ctx and "forced" not in ctx:
+            # the call-queue feeder thread died of an exception although nothing was killed: items it had buffered are lost
+            # silently and the queue is never closed properly
+            add(sorted(set(hang_props + ["C04", "C20"])), "feeder-crash", f"feeder-thread-crashed[{c}] ctx[{ctx}]", str(r.crashes[:2]))
+            continue
         if ended_ok:
             continue
         add(hang_props, "crash", f"crash[{c}] ctx[{ctx}]", str(r.crashes[:2]))
